@@ -289,6 +289,26 @@ def check_case(rep, x, t, horizontal, mv, deep=False, tag="", maps=None):
                                                                         A.tolist()))
 
 
+    # --- pure rescaling of BOTH axes by powers of two far from 1 (exact in float32: every sample, difference and slope stays
+    #     a normal float32 number; only products of a value difference and a time difference would leave the range)
+    if not horizontal:
+        for ea, eb in (((70, 60), (-80, -80)) if (maps is None or maps % 3 == 0) else ((64, 63),) if maps % 3 == 1 else ((-100, -60), (50, 80))):
+            rep.case()
+            try:
+                xs = np.array([np.nan if v is None else float(v) for v in x]) * 2.0 ** ea
+                ts = np.array([float(v) for v in tt]) * 2.0 ** eb
+                from pyunicorn.timeseries import VisibilityGraph
+                with quiet():
+                    g2 = VisibilityGraph(xs, timings=ts, missing_values=mv, horizontal=False, silence_level=3)
+                A2 = np.array(g2.adjacency).astype(int)
+            except Exception as e:  # noqa: BLE001
+                rep.fail(pre + "/affine-power-of-two-scaling", W(value_exp=ea, time_exp=eb), "raised %r" % (e,))
+                continue
+            if not np.array_equal(A2, A):
+                rep.fail(pre + "/affine-power-of-two-scaling", W(value_exp=ea, time_exp=eb),
+                         "graph changed under values*2^%d, times*2^%d: %d links instead of %d" % (ea, eb, A2.sum() // 2, A.sum() // 2))
+
+
 # ------------------------------------------------------------------ case generation
 
 def gaps_to_times(gaps, start=F(0)):
